@@ -116,6 +116,18 @@ Theorem C02_histories_with_a_filling_evicting_cache : forall ops ev,
   conds empty_world ([], []) ops -> run_d ev 0 (fun _ _ _ => cempty) empty_world ops = run empty_world ops.
 Proof. exact history_with_cache_from_scratch. Qed.
 
+(** ... so the headline statement holds verbatim with a node cache in play: a captured tree shows its
+    captured entries after any continuation that does not write it, whatever the cache kept or evicted *)
+Theorem C02_captured_tree_never_changes_with_a_cache : forall ops1 ops2 t x ev,
+  conds empty_world ([], []) (ops1 ++ ops2 ++ [OIter t]) ->
+  aget (fst (awrun2 ([], []) ops1)) t = Some x ->
+  Forall (fun o => ttarget o <> Some t) ops2 ->
+  last (map (fun y => pobs (fst y)) (run_d ev 0 (fun _ _ _ => cempty) empty_world (ops1 ++ ops2 ++ [OIter t]))) BOk = BList (at_l x).
+Proof.
+  intros ops1 ops2 t x ev C E F. rewrite (history_with_cache_from_scratch _ ev C).
+  exact (captured_tree_never_changes ops1 ops2 t x C E F).
+Qed.
+
 (** non-vacuity: the example history above, run with a cache that is filled on every load and commit and
     never evicts, and with one that evicts everything after every step *)
 Example C02_example_caches :
@@ -138,3 +150,4 @@ Print Assumptions C02_histories_through_caches.
 Print Assumptions C02_histories_through_a_fixed_cache.
 Print Assumptions C02_steps_keep_caches_coherent.
 Print Assumptions C02_histories_with_a_filling_evicting_cache.
+Print Assumptions C02_captured_tree_never_changes_with_a_cache.
